@@ -660,7 +660,9 @@ class NetworkGraph(AbstractBaseIR):
 
             buffer_eqs = []
             for i, (d, sidx) in enumerate(zip(delays, source_idx)):
-                var_delayed = f"past({var}, {d})" if type(d) is float or d != 1 else var
+                # edges without a delay carry the integer placeholder 1 (see `_collect_delays_from_edges`); a real delay of
+                # 1.0 time units arrives here as a float (python, numpy scalar or 0-d array) and must not be mistaken for it
+                var_delayed = f"past({var}, {d})" if isinstance(d, (float, np.floating, np.ndarray)) or d != 1 else var
                 if len(target_shape) < 1 or (len(target_shape) == 1 and target_shape[0] == 1):
                     buffer_eqs.append(f"{var}_buffered{buffer_id} = {var_delayed}")
                 else:
